@@ -80,6 +80,9 @@ def check_cases(cases: list[dict], rep: Report, known: dict) -> None:
             if got[0] == "ok" and wire.cls(got[1]) in wire.HEAD:
                 returned.append((got[1], snapshot_expr(got[1], p0)))
             info = {"origin": c["origin"], "pool": c["pool"], "ops": done[:], "after_op": k}
+            while len(snaps) < len(pool):          # a member composed from a returned expression joined the pool
+                snaps.append(snapshot_expr(pool[len(snaps)], p0))
+                copies = H.build_pool(c["pool"] + hist.extra_texts)
             for i, e in enumerate(pool):
                 now = snapshot_expr(e, p0)
                 if now != snaps[i]:
@@ -91,7 +94,7 @@ def check_cases(cases: list[dict], rep: Report, known: dict) -> None:
                     rep.violation(f"pool expression {i} no longer equals a freshly built copy after operation {k} ({op['op']})", info)
                     ok = False
             # ... and still denotes what a never-used copy denotes (first evaluation of a fresh build)
-            fresh_pool = H.build_pool(c["pool"])
+            fresh_pool = H.build_pool(c["pool"] + hist.extra_texts)
             for i, e in enumerate(pool):
                 used, fresh = call(e.at, p0), call(fresh_pool[i].at, p0)
                 if not H.same_result(used, fresh) and "timeout" not in (used[1], fresh[1]):
